@@ -47,6 +47,17 @@ CHECKS = {
         text='Two independently built models per path: the permuted copy must be equal both ways with equal hash for every permutation code and every cardinality; a rename or a cardinality change must make them unequal. '
              'Structural edits without payload (move, split, merge, constraint operator/operand) are enumerated natively per shape. Bounded.',
         note='Trusted: CrossHair + patches, z3. hash() only on concrete names/cards. Shapes N<=4/5 (E1), N<=5/6 (native edits).'),
+    'C17': dict(
+        category='model_checking', design_ref='6 C17',
+        technique='CrossHair symbolic execution (z3) of FMMetrics.execute and all 40 metric methods on symbolic cardinalities and abstract flags vs reference definitions, identities and ratios; two-model histories',
+        text='Per tree shape the whole report is computed by the real code on symbolic cardinalities / abstract flags and compared with definitions computed from the shape, the splitting identities, size/ratio rules and the stand-alone operations; '
+             'a second model analysed on the same object must equal a fresh analysis. Names concrete (the code hashes them). Bounded.',
+        note='Trusted: CrossHair + patches, z3, reference definitions in fmverif/props/c17.py. Shapes N<=4/5; constraint lists are five concrete sets; filters are concrete subsets.'),
+    'C19': dict(
+        category='model_checking', design_ref='6 C19',
+        technique='CrossHair symbolic execution (z3) of every operation in two-model histories with symbolic cardinalities, and of GenerateRandomAttribute with a stubbed random whose draws, range bounds and flags are symbolic',
+        text='Snapshot before/after and result-vs-fresh-object equality for all ten read-only operations over symbolic cardinalities of both models; random attribute generation is decided for all draws of the random stub, all integer range bounds, all target masks. Bounded.',
+        note='Trusted: CrossHair + patches, z3, the random stub contract (choice/randint/uniform), snapshot(). Histories of 2 (E1) / 3 (native). Float ranges limited to the 9-point stub.'),
 }
 
 NOT_YET = {}
